@@ -35,7 +35,10 @@ EpubSpace == [ rights : BOOLEAN,
 NoEpub == [rights |-> FALSE, enc |-> {}, algo |-> "aes128", uri |-> "plain", rfirst |-> TRUE]
 
 Init == \/ /\ mode = "admit" /\ kind \in Kinds /\ ext \in Exts /\ ecase \in {"lower", "upper", "mixed"}
-           /\ order \in (IF kind \in Zips THEN {"canonical", "reversed", "decoyfirst"} ELSE {"canonical"})
+           \* "mimelast": the "mimetype" member of an ODF / EPUB package written last instead of first (what zip tools that
+           \* sort or append produce); the other orders keep it first
+           /\ order \in (IF kind \in Zips THEN {"canonical", "reversed", "decoyfirst"} \cup (IF kind \in {"odt", "epub"} THEN {"mimelast", "mimelast-decoyfirst"} ELSE {})
+                          ELSE {"canonical"})
            /\ decoy \in (IF kind \in Zips THEN {"none", "word", "xl", "ppt"} ELSE {"none"})
            /\ epub = NoEpub
         \/ /\ mode = "drm" /\ kind = "epub" /\ ext = "epub" /\ ecase = "lower" /\ order = "canonical" /\ decoy = "none"
